@@ -555,7 +555,7 @@ Example C15_example_string_step :
   let base := mkS (b "http") (b "reg.test") (b "/v2/repo/tags/list") (b "n=2&last=a") in
   next_request (mkCfg KTags 2 0 []) base (b "<?last=b&tok=x;y>; rel=""next""")
     = NNext (b "/v2/repo/tags/list") (b "last=b&tok=x;y&n=2") /\
-  next_request (mkCfg KTags 0 0 []) base (b "<../list/~p?token=p%3Bb>")
+  next_request (mkCfg KTags 0 0 []) base (b "<./list/~p?token=p%3Bb>")
     = NNext (b "/v2/repo/tags/list/~p") (b "token=p%3Bb") /\
   first_query (mkCfg KTags 3 0 []) [] (b "a b/c") = b "n=3&last=a+b%2Fc".
 Proof. vm_compute. repeat split. Qed.
